@@ -79,6 +79,34 @@ def h_model_flag(g):
             detail={"pairs": pairs, "strand": strand})
 
 
+def h_read_flag(g):
+    """the Canonical flag of a read as BasicTSVAssignmentPrinter prints it: from the exons of the printed alignment (Unspliced iff
+    that alignment has no intron), whatever the corrected alignment looks like"""
+    import io as _io
+    pairs = pick_pairs(g, 2)
+    gi = GeneInfo.from_region("chr1", 1, 100)
+    gi.reference_region = flblock.make_sequence(INTRONS[:2], pairs, 100)
+    gi.all_read_region_start = 1
+    gi.all_isoforms_introns = {"T": []}
+    strand = "+" if g.bool("plus") else "-"
+    n_in = g.choice("read_introns", 3)
+    exons = [[(1, 100)], [(1, 10), (31, 100)], [(1, 10), (31, 40), (61, 100)]][n_in]
+    corrected = [[(1, 100)], [(1, 10), (31, 100)], [(1, 10), (31, 40), (61, 100)]][g.choice("corrected_alignment_introns", 3)]
+    pr = assignment_io.BasicTSVAssignmentPrinter.__new__(assignment_io.BasicTSVAssignmentPrinter)
+    pr.output_file = _io.StringIO()
+    pr.params = flblock.Obj(cage=None, check_canonical=True)
+    pr.io_support = assignment_io.IOSupport(None)
+    pr.assignment_checker = flblock.Obj(check=lambda ra: True)
+    m = ia.IsoformMatch(ia.MatchClassification.full_splice_match, "G", "T", ia.MatchEvent(ia.MatchEventSubtype.fsm), strand)
+    ra = flblock.Obj(read_id="r", chr_id="chr1", strand=strand, exons=exons, corrected_exons=corrected, isoform_matches=[m], gene_info=gi,
+                     assignment_type=RT.unique, gene_assignment_type=RT.unique, polyA_found=False, cage_found=False, additional_attributes={})
+    call(g, pr.add_read_info, ra)
+    line = pr.output_file.getvalue()
+    want = "Unspliced" if n_in == 0 else str(all(p in (FWD if strand == "+" else REV) for p in pairs[:n_in]))
+    g.check(("Canonical=%s;" % want) in line, "Canonical flag of a read: Unspliced for a mono-exonic alignment, else all introns canonical on its strand",
+            detail={"pairs": pairs, "strand": strand, "line": line.strip()[-120:]})
+
+
 def site_strand(p):
     f, r = p in FWD, p in REV
     return "." if f == r else ("+" if f else "-")
@@ -118,6 +146,22 @@ def h_detector(n):
         wantc = "+" if (nf > 0 and nr == 0) else ("-" if (nr > 0 and nf == 0) else ".")
         g.check(c == wantc, "clean strand only when all informative sites agree", detail={"pairs": pairs})
     return fn
+
+
+def h_detector_independent(g):
+    """two strand detectors (two chromosomes / loci handled by one worker) asked about introns with the SAME coordinates: each
+    answers from its own reference sequence"""
+    first = (LEFTS[g.choice("earlier_locus_left_site", len(LEFTS))], RIGHTS[g.choice("earlier_locus_right_site", len(RIGHTS))])
+    pairs = pick_pairs(g, 1)
+    a = StrandDetector(_OneBased(flblock.make_sequence(INTRONS[:1], [first], 100)))
+    if bool(g.bool("earlier_locus_strand_from_annotation")):
+        call(g, a.set_strand, INTRONS[0], "-")
+    else:
+        call(g, a.get_strand, INTRONS[:1])
+    b = StrandDetector(_OneBased(flblock.make_sequence(INTRONS[:1], pairs, 100)))
+    r = call(g, b.get_clean_strand, INTRONS[:1])
+    g.check(r == site_strand(pairs[0]), "a strand detector answers from its own reference sequence, whatever another detector saw at the same coordinates",
+            detail={"earlier_locus_sites": first, "sites": pairs[0], "answer": r})
 
 
 class _OneBased:
@@ -214,6 +258,11 @@ def instances(tier, seed):
                             weight=25 ** ni * 4 ** nq, budget_s=1500))
     out.append(Instance("model_flag", h_model_flag, ["src.assignment_io:IOSupport.add_canonical_info_for_model",
                                                     "src.assignment_io:IOSupport.check_sites_are_canonical"], "2 introns", weight=100))
+    out.append(Instance("detector_independent", h_detector_independent, ["src.gene_info:StrandDetector.__init__", "src.gene_info:StrandDetector.set_strand",
+                                                                         "src.gene_info:StrandDetector.count_canonical_sites"],
+                        "two detectors, one intron at the same coordinates, all 25 x 25 site pairs", weight=20))
+    out.append(Instance("read_flag", h_read_flag, ["src.assignment_io:BasicTSVAssignmentPrinter.add_read_info", "src.assignment_io:IOSupport.check_sites_are_canonical"],
+                        "printed alignment with 0-2 introns, corrected alignment with 0-2 introns, all 25 x 25 site pairs, both strands", weight=30))
     out.append(Instance("intron_strand", h_intron_strand, ["src.common:get_intron_strand"], "1 intron, all 25 site pairs, upper/lower case, symbolic region start", weight=10))
     for n in ((1, 2) if q else (1, 2, 3)):
         out.append(Instance("detector[%d]" % n, h_detector(n), ["src.gene_info:StrandDetector.get_strand", "src.gene_info:StrandDetector.get_clean_strand",
